@@ -412,13 +412,110 @@ def wl_cuckoo(ctx, rng, case):
         sc.cleanup()
 
 
+# ------------------------------------------------------------------------------- large geometries
+
+def wl_large(ctx, rng, case):
+    """the same differential on LARGE structures (default-sized and bigger): buffers, block sizes and offsets that tiny tables never reach"""
+    import random as stdrandom
+
+    import probables as P
+
+    kind = ["cuckoo", "counting_cuckoo", "bloom", "counting_bloom", "cms", "expanding"][case.index % 6]
+    case.desc = {"kind": "large " + kind}
+    ctx.observe("classes", "large-" + kind)
+    stdrandom.seed(rng.getrandbits(32))
+    keys = [f"big-{case.index}-{i}" for i in range(rng.randint(200, 1500))]
+    sc = bl.Scratch(ctx, case)
+    try:
+        if kind in ("cuckoo", "counting_cuckoo"):
+            cls = P.CountingCuckooFilter if kind == "counting_cuckoo" else P.CuckooFilter
+            cap = rng.choice([10000, 12000, 16385, 20000, 33000])
+            bsz = rng.choice([2, 4, 4, 6])
+            s = cls(capacity=cap, bucket_size=bsz, max_swaps=50)
+            for kk in keys:
+                s.add(kk)
+                if kind == "counting_cuckoo" and rng.random() < 0.3:
+                    s.add(kk)
+            for kk in rng.sample(keys, 40):
+                s.remove(kk)
+            if rng.random() < 0.5:
+                s.expand()
+                case.op("expand")
+            case.desc.update(capacity=s.capacity, bucket_size=bsz, slots=s.capacity * bsz)
+            ctx.maximum("largest_cuckoo_table_slots", s.capacity * bsz)
+            data = bytes(s)
+            p = sc.path("big")
+            s.export(p)
+            with open(p, "rb") as fh:
+                ctx.check(fh.read() == data, f"large {kind}: file export and bytes() differ")
+
+            def table(o):
+                if kind == "counting_cuckoo":
+                    return [[(b.finger, b.count) for b in bucket] for bucket in o.buckets]
+                return [[int(x) for x in bucket] for bucket in o.buckets]
+
+            acc = [("capacity", lambda o: o.capacity), ("bucket_size", lambda o: o.bucket_size), ("max_swaps", lambda o: o.max_swaps),
+                   ("elements_added", lambda o: o.elements_added), ("load_factor()", lambda o: o.load_factor()), ("buckets", table)]
+            for lname, ld in (("frombytes", lambda: cls.frombytes(data)), ("filepath", lambda: cls(filepath=p))):
+                t = ld()
+                compare(ctx, s, t, acc, MEMBER_Q, rng.sample(keys, 60) + ["never-added"], f"large {kind} via {lname}")
+                ctx.check(bytes(t) == data, f"large {kind}: re-export after loading via {lname} differs from the original export")
+        elif kind in ("bloom", "counting_bloom"):
+            cls = P.CountingBloomFilter if kind == "counting_bloom" else P.BloomFilter
+            est, rate = rng.choice([(5000, 0.01), (20000, 0.05), (100000, 0.01), (3000, 1e-6)]) if kind == "bloom" else rng.choice([(2000, 0.01), (5000, 0.05)])
+            s = cls(est, rate)
+            for kk in keys:
+                s.add(kk)
+            case.desc.update(est=est, rate=rate, bits=s.number_bits)
+            data = bytes(s)
+            hx = s.export_hex()
+            p = sc.path("big")
+            s.export(p)
+            for lname, ld in (("frombytes", lambda: cls.frombytes(data)), ("filepath", lambda: cls(filepath=p)), ("hex_string", lambda: cls(hex_string=hx))):
+                t = ld()
+                compare(ctx, s, t, [a for a in BLOOM_ACC if a[0] != "str"], MEMBER_Q, rng.sample(keys, 40) + ["never-added"], f"large {kind} via {lname}")
+                ctx.check(bytes(t) == data, f"large {kind}: re-export after loading via {lname} differs")
+        elif kind == "cms":
+            cls = rng.choice([P.CountMinSketch, P.CountMeanSketch, P.CountMeanMinSketch])
+            s = cls(width=rng.choice([5000, 20000]), depth=rng.randint(4, 8))
+            for kk in keys:
+                s.add(kk, rng.randint(1, 9))
+            data = bytes(s)
+            p = sc.path("big")
+            s.export(p)
+            acc = [("width", lambda o: o.width), ("depth", lambda o: o.depth), ("elements_added", lambda o: o.elements_added), ("query_type", lambda o: o.query_type)]
+            for lname, ld in (("frombytes", lambda: cls.frombytes(data)), ("filepath", lambda: cls(filepath=p))):
+                t = ld()
+                compare(ctx, s, t, acc, [("check", lambda o, k: o.check(k))], rng.sample(keys, 60) + ["never-added"], f"large {cls.__name__} via {lname}")
+                ctx.check(bytes(t) == data, f"large {cls.__name__}: re-export after loading via {lname} differs")
+        else:
+            rotating = rng.random() < 0.5
+            cls = P.RotatingBloomFilter if rotating else P.ExpandingBloomFilter
+            extra = {"max_queue_size": 3} if rotating else {}
+            s = cls(est_elements=rng.choice([100, 400]), false_positive_rate=0.01, **extra)
+            for kk in keys:
+                s.add(kk)
+            data = bytes(s)
+            p = sc.path("big")
+            s.export(p)
+            acc = [("expansions", lambda o: o.expansions), ("elements_added", lambda o: o.elements_added), ("estimated_elements", lambda o: o.estimated_elements)]
+            for lname, ld in (("frombytes", lambda: cls.frombytes(data, **extra)), ("filepath", lambda: cls(filepath=p, **extra))):
+                t = ld()
+                compare(ctx, s, t, acc, MEMBER_Q, rng.sample(keys, 60) + ["never-added"], f"large {cls.__name__} via {lname}")
+                ctx.check(bytes(t) == data, f"large {cls.__name__}: re-export after loading via {lname} differs")
+        ctx.count("large_structures_compared")
+        case.nontrivial = True
+    finally:
+        sc.cleanup()
+
+
 PROP = Prop(
     "C05",
     "exploration",
     rule=("bloom: BloomFilter (states incl. results of union/intersection, reloads, clears) and CountingBloomFilter (incl. saturated cells); ondisk: "
           "BloomFilterOnDisk; expanding: Expanding / Rotating filters after growth, rotation, push, pop; sketch: the five count-min classes incl. cells "
           "pinned at the int32 limits; cuckoo: plain and counting cuckoo filters after evictions / removals, sized by bytes or by error rate, incl. keys "
-          "whose fingerprint equals the empty-slot marker. Every class is exported through all its channels and loaded through its own class. "
+          "whose fingerprint equals the empty-slot marker; large: default-sized and bigger structures of every family (cuckoo tables up to ~260 000 slots, after an expansion). Every class is exported through all its channels and loaded through its own class. "
           "Every case is non-trivial (one state, 2-4 loaders); distinct by hash of (parameters, operations)."),
     workloads=[
         Workload("bloom", wl_bloom, quick=500, thorough=40000),
@@ -426,11 +523,12 @@ PROP = Prop(
         Workload("expanding", wl_expanding, quick=400, thorough=30000),
         Workload("sketch", wl_sketch, quick=600, thorough=40000),
         Workload("cuckoo", wl_cuckoo, quick=600, thorough=40000),
+        Workload("large", wl_large, quick=18, thorough=600),
     ],
     assumptions=["what the format does not store is re-supplied: hash function, cuckoo fingerprint width (setter or error rate) and expansion settings, rotating queue limit, "
                  "heavy-hitter / threshold parameters; confidence / error rate of a sketch sized that way are not compared",
                  "rates the format stores as 32-bit floats are compared after narrowing",
                  "a Bloom union whose array is completely set (element count -1) is not exported (no property claims that state is exportable)"],
-    required=["reload_comparisons", "payload_comparisons", "saturated_states", "sketch_states_with_over_removal", "states_after_growth_or_rotation", "cases_with_zero_fingerprint_key",
+    required=["reload_comparisons", "payload_comparisons", "large_structures_compared", "saturated_states", "sketch_states_with_over_removal", "states_after_growth_or_rotation", "cases_with_zero_fingerprint_key",
               "states_with_partially_filled_buckets", "channel.hex_string", "channel.filepath", "channel.frombytes", "channel.load_error_rate", "channel.ondisk_path"],
 )
